@@ -26,7 +26,14 @@ fn cases(max_irregular: usize) -> Vec<HelloCase> {
         (&[CAP_BASE_1_1], Some("V1_1"), "base:1.1 only"),
         (&[CAP_BASE_1_0, CAP_BASE_1_1], Some("V1_1"), "both bases"),
     ];
-    let extras: [&[&str]; 3] = [&[], &["urn:ietf:params:netconf:capability:candidate:1.0", "http://xml.juniper.net/netconf/junos/1.0"], &["urn:example:unknown:1.0"]];
+    // the last group: capabilities that look like a base capability but are not one (the YANG module of RFC 6241,
+    // other version strings)
+    let extras: [&[&str]; 4] = [
+        &[],
+        &["urn:ietf:params:netconf:capability:candidate:1.0", "http://xml.juniper.net/netconf/junos/1.0"],
+        &["urn:example:unknown:1.0"],
+        &["urn:ietf:params:xml:ns:netconf:base:1.0?module=ietf-netconf&amp;revision=2011-06-01", "urn:ietf:params:netconf:base:1.0.1", "urn:ietf:params:netconf:base:10", "urn:ietf:params:netconf:capability:base:1.0"],
+    ];
     // (elements, Some(valid id), description)
     let ids: Vec<(Vec<&str>, Option<u32>, &str)> = vec![
         (vec![], None, "session-id missing"),
@@ -39,6 +46,11 @@ fn cases(max_irregular: usize) -> Vec<HelloCase> {
         (vec![""], None, "session-id empty"),
         (vec!["7", "7"], None, "session-id duplicated (same value)"),
         (vec!["7", "9"], None, "session-id duplicated (different values)"),
+        (vec!["0", "7"], None, "session-id duplicated (zero, then valid)"),
+        (vec!["7", "0"], None, "session-id duplicated (valid, then zero)"),
+        (vec!["abc", "7"], None, "session-id duplicated (unparsable, then valid)"),
+        (vec!["", "7"], None, "session-id duplicated (empty, then valid)"),
+        (vec!["4294967296", "7"], None, "session-id duplicated (out of range, then valid)"),
         (vec!["18446744073709551617"], None, "session-id 2^64+1"),
     ];
     #[derive(Clone, Copy, PartialEq, Debug)]
